@@ -79,13 +79,15 @@ def register(g):
             spinStrict=m_spin is not None and m_spin.group(2) == '>',
             sendAfterWait=i_send >= 0 and m_spin is not None and i_send > m_spin.start(),
             recvReleases='fetch_sub(memory_usage' in recv and recv.find('self.inner.recv()') < recv.find('fetch_sub(memory_usage'),
-            tryRecvReleases='fetch_sub(memory_usage' in tryr and tryr.find('self.inner.try_recv()') < tryr.find('fetch_sub(memory_usage'))
+            tryRecvReleases='fetch_sub(memory_usage' in tryr and tryr.find('self.inner.try_recv()') < tryr.find('fetch_sub(memory_usage'),
+            waitChecksReceiverGone=(m_spin is not None and _re.search(r'if\s+self\.receiver_dropped\.load\([^)]*\)\s*\{[^}]*break;', send[m_spin.start():i_send if i_send > 0 else None], _re.S) is not None and
+                                    _re.search(r'impl<T>\s+Drop\s+for\s+Receiver<T>\s*\{[^}]*\{[^}]*receiver_dropped\.store\(true', mb, _re.S) is not None))
         for k, v in f.items():
             if not v:
                 status['channel:' + k] = 'not recognised / differs from the reference protocol'
         b = lambda x: 'true' if x else 'false'
         lines = ['import RjModel.Model.Channel', 'namespace Rj.Generated',
-                 'def channelFeatures : ChanFeatures := ⟨' + ', '.join(b(f[k]) for k in ('countBeforeBlock', 'admitComparesOld', 'admitStrict', 'spinSubtractsOwn', 'spinStrict', 'sendAfterWait', 'recvReleases', 'tryRecvReleases')) + '⟩',
+                 'def channelFeatures : ChanFeatures := ⟨' + ', '.join(b(f[k]) for k in ('countBeforeBlock', 'admitComparesOld', 'admitStrict', 'spinSubtractsOwn', 'spinStrict', 'sendAfterWait', 'recvReleases', 'tryRecvReleases', 'waitChecksReceiverGone')) + '⟩',
                  'end Rj.Generated']
         write('Skeletons.lean', '\n'.join(lines) + '\n')
 
@@ -132,4 +134,25 @@ def register(g):
         lines += [']', 'end Rj.Generated']
         write('Sites.lean', '\n'.join(lines) + '\n')
 
-    return {'defaults': defaults, 'skeletons': skeletons, 'sites': sites}
+    def shutdown():
+        import re as _re
+        bl = strip_comments(read('src/boss_launch.rs'))
+        body = fn_body(bl, 'shutdown') or ''
+        i_join = body.find('thread.join()')
+        m_loop = _re.search(r'while\s*!\s*thread\.is_finished\(\)\s*\{[^}]*receiver\.try_recv\(\)', body, _re.S)
+        local = m_loop is not None and i_join > m_loop.start()
+        m_rem = _re.search(r'loop\s*\{\s*match\s+encrypted_comms\.receiver\.recv\(\)\s*\{.*?Ok\(Response::ProfilingData\(x\)\)\s*=>\s*\{.*?break;.*?Ok\(_\)\s*=>\s*continue', body, _re.S)
+        remote = m_rem is not None and body.find('encrypted_comms.shutdown()') > m_rem.start()
+        bs = strip_comments(read('src/boss_sync.rs'))
+        q = fn_body(bs, 'query_entries') or ''
+        nb = (_re.search(r'0\s*=>\s*match\s+ctx\.src_comms\.try_receive_response\(\)\?', q) is not None and
+              _re.search(r'1\s*=>\s*match\s+ctx\.dest_comms\.try_receive_response\(\)\?', q) is not None and
+              'receive_response()?' not in q.replace('try_receive_response()?', ''))
+        for k, v in (('shutdown:local-drain', local), ('shutdown:remote-drain', remote), ('query:non-blocking-recv', nb)):
+            if not v:
+                status[k] = 'not recognised / differs from the reference skeleton'
+        b = lambda x: 'true' if x else 'false'
+        write('Shutdown.lean', 'import RjModel.Model.Shutdown\nnamespace Rj.Generated\n' +
+              f'def shutdownFeatures : ShutFeatures := ⟨{b(local)}, {b(remote)}, {b(nb)}⟩\nend Rj.Generated\n')
+
+    return {'defaults': defaults, 'skeletons': skeletons, 'sites': sites, 'shutdown': shutdown}
